@@ -72,7 +72,7 @@ pub fn rl_runs(len: usize, runs: &Runs) -> RLVector {
     RLVector::from(b)
 }
 
-pub const PLAIN_ROUTES: [&str; 7] = ["raw", "push", "iter", "from_sparse", "from_rl", "copy_rl", "raw_shrunk"];
+pub const PLAIN_ROUTES: [&str; 8] = ["raw", "push", "iter", "from_sparse", "from_rl", "copy_rl", "raw_shrunk", "raw_resized"];
 pub const SPARSE_ROUTES: [&str; 5] = ["builder", "try_set", "extend", "from_plain", "from_rl"];
 pub const RL_ROUTES: [&str; 7] = ["runs", "bits", "split", "set_len_steps", "zero_runs", "from_plain", "from_sparse"];
 
@@ -91,6 +91,21 @@ pub fn build(kind: &str, route: &str, len: usize, runs: &Runs) -> AnyBv {
                     for _ in 0..3 { raw.push_bit(true); }
                     for _ in 0..3 { raw.pop_bit(); }
                     unsafe { raw.pop_int(37); raw.pop_int(64); }
+                    // ... and a set bit pushed and popped exactly at a word boundary
+                    let pad = (64 - len % 64) % 64;
+                    for _ in 0..pad { raw.push_bit(true); }
+                    raw.push_bit(true);
+                    raw.pop_bit();
+                    for _ in 0..pad { raw.pop_bit(); }
+                    BitVector::from(raw)
+                },
+                "raw_resized" => {
+                    // grown run by run with RawVector::resize (fill value false for the gaps, true for the runs), often within one word
+                    let mut raw = RawVector::new();
+                    for (s, l) in runs.iter() { raw.resize(*s, false); raw.resize(*s + *l, true); }
+                    raw.resize(len, false);
+                    raw.resize(len + 70, true);     // overshoot with ones, then shrink back: the tail must be cleared again
+                    raw.resize(len, false);
                     BitVector::from(raw)
                 },
                 "push" => {
